@@ -15,6 +15,8 @@ for d in sorted(glob.glob(os.path.join(here, "seeded", "*", "meta.json"))):
     m = json.load(open(d))
     r = res.get(m["id"])
     cell = f"{r[0]} ({r[1]})" if r else "-"
+    if m.get("status"):
+        cell = m["status"] + " [" + cell + "]"
     esc = lambda s: str(s).replace("|", "\\|").replace("\n", " ")
     rows.append(f"| `{m['id']}` | {m['breaks_property']} | {esc(m['needs_to_manifest'])} | {esc(m['detected_by'])} | {esc(cell)} |")
 text = "\n".join(rows)
